@@ -211,6 +211,9 @@ void Kernel::yield_point() {
   Proc *p = t->proc;
   steps++; p->ncalls++;
   if (steps > knobs.max_steps) { abort_reason = "inconclusive: step budget exhausted"; stop = true; req = R_YIELD; t->st = Task::READY; to_sched(); }
+  // cpu cost: a system that never blocks still consumes time (one virtual second per cpu_steps yield points without clock movement)
+  if (clock != last_clock_seen) { last_clock_seen = clock; steps_at_clock = steps; }
+  else if (steps - steps_at_clock >= knobs.cpu_steps) { steps_at_clock = steps; advance_clock_to(clock + 1); last_clock_seen = clock; probe("cpu_cost_tick"); }
   deliver_signals();
   if (knobs.tick_p > 0) {
     double tp = knobs.tick_p;
